@@ -11,6 +11,7 @@ by z3 (``unsat`` of the negation under the path condition = held, ``sat`` = mode
 to the harness for replay on the real float code, ``unknown`` = inconclusive).
 """
 import math
+import os
 import time
 import traceback
 from fractions import Fraction
@@ -340,6 +341,9 @@ class Ctx:
         self.alt_timeout_ms = 4000
         self.lemmas = list(lemmas)
         self.pw_mode = False
+        self.cvc5_budget = int(os.environ.get("VERIF_CVC5_PER_OBLIGATION", "0") or 0)
+        self.cvc5 = {}
+        self.cvc5_s = 0.0
         self._z3memo = {}
         self.positive_idx = set()
         self.base_pre = []
@@ -570,7 +574,32 @@ class Ctx:
         self.nq += 1
         return str(r)
 
-    def solve(self, conds, timeout_ms=None, atoms=None, z3extra=()):
+    def cross_check(self, solver):
+        """Second opinion from cvc5 on a query z3 answered ``unsat`` (exported as SMT-LIB2).  Returns 'unsat', 'sat' or 'unknown'."""
+        try:
+            import cvc5
+
+            txt = "(set-logic ALL)\n" + solver.to_smt2()
+            if "(error" in txt:
+                return "unknown"
+            slv = cvc5.Solver()
+            slv.setOption("tlimit-per", "4000")
+            p = cvc5.InputParser(slv)
+            p.setStringInput(cvc5.InputLanguage.SMT_LIB_2_6, txt, "q")
+            sm = p.getSymbolManager()
+            res = "unknown"
+            while True:
+                c = p.nextCommand()
+                if c.isNull():
+                    break
+                out = c.invoke(slv, sm)
+                if c.getCommandName() == "check-sat":
+                    res = str(out).strip()
+            return res if res in ("sat", "unsat") else "unknown"
+        except Exception:  # noqa: BLE001
+            return "unknown"
+
+    def solve(self, conds, timeout_ms=None, atoms=None, z3extra=(), is_claim=False):
         """check-sat of atom relations + lemmas + conds.  Returns (verdict, model|None)."""
         ats = self.atoms if atoms is None else atoms
         if not z3extra and all(isinstance(c, Cond) for c in conds):
@@ -613,6 +642,14 @@ class Ctx:
             s2.add(*s.assertions())
             r = self._timed_check(s2)
             s = s2
+        if r == "unsat" and is_claim and self.cvc5_budget > 0:
+            self.cvc5_budget -= 1
+            t = time.time()
+            r2 = self.cross_check(s)
+            self.cvc5_s += time.time() - t
+            self.cvc5[r2] = self.cvc5.get(r2, 0) + 1
+            if r2 == "sat":
+                return "unknown", None  # the two solvers disagree: the obligation is inconclusive
         return r, (s.model() if r == "sat" else None)
 
     # ---- branching
@@ -1135,6 +1172,8 @@ class Sym:
             q = Fraction(int(n.LC.numerator), int(n.LC.denominator))
             r = _iroot_frac(q, k)
             out = Sym(c.R(QQ(r.numerator, r.denominator))) if r is not None else Sym(c.root_atom(n, k).gen)
+        elif len(n) <= 60 and _nvars(n) <= 7 and _perfect_power(n, k) is not None:
+            out = _perfect_power(n, k)
         else:
             if float_pow:
                 # x ** (1/3) of a negative double is nan in the real code
@@ -1331,6 +1370,21 @@ def _sqrt(s):
         fa = fs if bool(fs >= 0) else -fs
         out = out / fa ** e
     return out
+
+
+def _perfect_power(n, k):
+    """Sym g with g**k == n for an odd k, if the polynomial n is a perfect k-th power (via square-free decomposition)."""
+    co, facs = _sqf_small(n)
+    cq = Fraction(int(co.numerator), int(co.denominator))
+    r = _iroot_frac(cq, k)
+    if r is None:
+        return None
+    g = CTX.one
+    for f, m in facs:
+        if m % k:
+            return None
+        g = g * f ** (m // k)
+    return Sym(g) * r
 
 
 def _nvars(p):
@@ -1758,9 +1812,9 @@ def claim(name, cond, timeout_ms=None):
     npre = getattr(ctx, "n_pre", 0)
     r, m = ("unknown", None)
     if len(ctx.pc) > npre + 8:
-        r, m = ctx.solve(ctx.pc[:npre] + [neg], timeout_ms=min(timeout_ms or ctx.solver_timeout_ms, 5000))
+        r, m = ctx.solve(ctx.pc[:npre] + [neg], timeout_ms=min(timeout_ms or ctx.solver_timeout_ms, 5000), is_claim=True)
     if r != "unsat":
-        r, m = ctx.solve(ctx.pc + [neg], timeout_ms=timeout_ms)
+        r, m = ctx.solve(ctx.pc + [neg], timeout_ms=timeout_ms, is_claim=True)
     dt = ctx.tq - t
     if r == "unsat":
         res = ClaimResult(name, "held", None, "", dt, cond.size())
@@ -1793,7 +1847,7 @@ def claim_eq(name, a, b, timeout_ms=None):
         lhs, rhs = a.num * b.denpoly(), b.num * a.denpoly()
         if len(lhs) + len(rhs) <= 400:
             t = ctx.tq
-            r, _ = ctx.solve(ctx.pc, z3extra=[ctx.poly_z3(lhs) != ctx.poly_z3(rhs)], timeout_ms=timeout_ms)
+            r, _ = ctx.solve(ctx.pc, z3extra=[ctx.poly_z3(lhs) != ctx.poly_z3(rhs)], timeout_ms=timeout_ms, is_claim=True)
             res = ClaimResult(name, "held" if r == "unsat" else "inconclusive", None,
                               "normal forms equal; solver on cross-multiplied form: " + r, ctx.tq - t, len(lhs) + len(rhs))
             if r != "unsat":
